@@ -237,7 +237,7 @@ class Logic(object):
 
     def get_quantified_version(self):
         """Returns the quantified version of logic."""
-        if self.quantifier_free:
+        if not self.quantifier_free:
             return self
         target_logic = Logic(name="", description="",
                              quantifier_free=False,
